@@ -490,11 +490,39 @@ func (p *Prog) tableTests(f *ssa.Function) []tableTest {
 					tt.OkKey, tt.ValKey = sk(x), sk(x)
 				}
 				out = append(out, tt)
+			} else if len(g.Blocks) <= 3 && len(g.Params) == 1 && x.Call.Args[0] != nil && tableTestDepth < 1 {
+				// a helper that wraps one lookup in a constant table and returns its results: ffiOf(pkg) =
+				// ffiMapping[pkg.PkgPath]
+				tableTestDepth++
+				inner := p.tableTests(g)
+				tableTestDepth--
+				if len(inner) == 1 && g.Signature.Results().Len() <= 2 {
+					if lk, ok := inner[0].In.(*ssa.Lookup); ok {
+						tt := tableTest{Table: inner[0].Table, Key: lk.Index, In: x}
+						if g.Signature.Results().Len() == 2 && lk.CommaOk {
+							tt.OkKey, tt.ValKey = shortKey(sk(x)+"#1"), shortKey(sk(x)+"#0")
+							// the keys under which facts and uses render the results (the helper may be inlined
+							// into the key)
+							for _, rf := range refs(x) {
+								if ex, ok := rf.(*ssa.Extract); ok {
+									if ex.Index == 1 {
+										tt.OkKey = sk(ex)
+									} else {
+										tt.ValKey = sk(ex)
+									}
+								}
+							}
+							out = append(out, tt)
+						}
+					}
+				}
 			}
 		}
 	})
 	return out
 }
+
+var tableTestDepth int
 
 // holds: the fact that the test answered val is among rs.
 func (tt tableTest) holds(rs relSet, val bool) bool {
